@@ -115,6 +115,44 @@ def registry_block(_b):
         except Exception as exc:
             out = type(exc).__name__
         obs.append(static_ob(f"{P}/core.adsorbate.Adsorbate.find/raises.ParameterError_unknown_name/{bogus or 'empty'}", out == 'ParameterError', out, backend='eval'))
+    # the packaged database is written and read through parsing.sqlite: storing an adsorbate (again) leaves the in-memory
+    # adsorbate -- its alias list in particular -- and the resolution of every name / alias variant as they were
+    import shutil
+    import tempfile
+    import pygaps.parsing.sqlite as SQ
+    from pgv.checks import c09
+    tmp = tempfile.mkdtemp(prefix='pgv-c20-')
+    reg0 = c09._registries()
+    try:
+        db = os.path.join(tmp, 'copy.db')
+        shutil.copyfile(os.path.join(src, 'default.db'), db)
+        bad_store = []
+        for nm in ('nitrogen', 'argon', 'carbon dioxide', 'water', 'n-butane'):
+            ads = Adsorbate.find(nm)
+            before = (sorted(ads.alias), {k: (sorted(v) if isinstance(v, list) else v) for k, v in ads.to_dict().items()})
+            try:
+                SQ.adsorbate_to_db(ads, db_path=db, overwrite=True, verbose=False)
+            except Exception as exc:
+                bad_store.append((nm, f"store refused: {type(exc).__name__}"))
+                continue
+            after = (sorted(ads.alias), {k: (sorted(v) if isinstance(v, list) else v) for k, v in ads.to_dict().items()})
+            if after != before:
+                bad_store.append((nm, f"aliases {before[0]} -> {after[0]}" if after[0] != before[0] else 'properties changed'))
+            for x in sets[ads.name]:
+                for v in _variants(x):
+                    try:
+                        if Adsorbate.find(v) is not ads:
+                            bad_store.append((nm, f"find({v!r}) is another object"))
+                    except ParameterError:
+                        bad_store.append((nm, f"find({v!r}) no longer resolves"))
+            back = [a for a in SQ.adsorbates_from_db(db_path=db, verbose=False) if a.name == ads.name]
+            if len(back) != 1 or set(x.lower() for x in back[0].alias) != set(x.lower() for x in before[0]):
+                bad_store.append((nm, f"stored copy has aliases {sorted(back[0].alias) if back else None}"))
+        obs.append(static_ob(f"{P}/parsing.sqlite.adsorbate_to_db/registry.storing_leaves_adsorbate_and_resolution_unchanged/5_shipped_adsorbates", not bad_store,
+                             str(bad_store[:4]), backend='eval', replay={'kind': 'c20.store'}))
+    finally:
+        c09._restore(reg0)
+        shutil.rmtree(tmp, ignore_errors=True)
     # str.lower on the shipped data: ASCII only (the case lemma)
     non_ascii = [x for s in sets.values() for x in s if not x.isascii()]
     obs.append(static_ob(f"{P}/data.adsorbates_json/registry.names_and_aliases_ascii/exhaustive", not non_ascii, str(non_ascii[:5]), backend='eval'))
